@@ -176,6 +176,9 @@ func (ec *EvalCtx) globalVal(o *types.Var) Val {
 // ghostGlobal: a global ghost map/value "G:$name".
 func (ec *EvalCtx) ghostGlobal(name string) Val {
 	st := ec.st
+	if v, ok := st.ghostLocals["$"+name]; ok {
+		return v
+	}
 	gd := st.vc.cs.Ghosts[name]
 	key := "G:$" + name
 	if gd != nil {
@@ -208,6 +211,8 @@ func (ec *EvalCtx) ghostFunArr(name, argSort string) (string, Term) {
 
 func builtinGhostSort(name string) (string, bool) {
 	switch {
+	case name == "spawned":
+		return arrSort(SStr, SInt), true
 	case name == "signalled":
 		return arrSort(SInt, SBool), true
 	case name == "sends", name == "closes", name == "broadcasts", name == "wgdone":
@@ -554,6 +559,47 @@ func (ec *EvalCtx) call(e *CExpr) Val {
 		return TV{ec.chanField(argT(0), "len"), it}
 	case "$cap":
 		return TV{ec.chanField(argT(0), "cap"), it}
+	case "$sent":
+		return TV{ec.chanField(argT(0), "sent"), it}
+	case "$rcvd":
+		return TV{ec.chanField(argT(0), "rcvd"), it}
+	case "$chval":
+		// $chval(c, k): the k-th value ever sent on c (channels of scalar element type)
+		v := arg(0)
+		tv, ok := v.(TV)
+		if !ok || tv.Typ == nil {
+			fail("$chval needs a typed channel value")
+		}
+		cht, ok := resolveTP(tv.Typ).Underlying().(*types.Chan)
+		if !ok {
+			fail("$chval of a non-channel")
+		}
+		k := argT(1)
+		var rd func(t types.Type, prefix string) Val
+		rd = func(t types.Type, prefix string) Val {
+			switch classify(t) {
+			case kScalar:
+				lf := leaf{prefix, t, sortOf(t)}
+				key := st.chanValKey(cht.Elem(), lf)
+				var arr Term
+				if ec.inOld {
+					arr = st.oldGet(key)
+				} else {
+					arr = st.get(key)
+				}
+				return TV{tSelect(tSelect(arr, tv.T), k), t}
+			case kStruct:
+				s := t.Underlying().(*types.Struct)
+				out := StructV{Typ: t}
+				for i := 0; i < s.NumFields(); i++ {
+					out.F = append(out.F, rd(s.Field(i).Type(), joinPath(prefix, s.Field(i).Name())))
+				}
+				return out
+			}
+			fail("$chval: unsupported element type %s", t)
+			return nil
+		}
+		return rd(cht.Elem(), "")
 	case "$alloc":
 		vc.setKeySort(allocKey, arrSort(SInt, SBool))
 		if ec.inOld {
@@ -713,6 +759,9 @@ func (ec *EvalCtx) lockKey(e *CExpr) string {
 
 func (ec *EvalCtx) chanField(ch Term, f string) Term {
 	st := ec.st
+	if f == "len" {
+		return tSub(ec.chanField(ch, "sent"), ec.chanField(ch, "rcvd"))
+	}
 	k := st.chanKey(f)
 	if ec.inOld {
 		return tSelect(st.oldGet(k), ch)
@@ -946,7 +995,7 @@ func (vc *VC) staticTargetKeys(tgt string, origin *ssa.Function, c *ssa.CallComm
 			return []string{"G:" + e.Name + "<"}, true
 		}
 		if e.Name == "$chan" {
-			return []string{"CH:len"}, true
+			return []string{"CH:sent", "CH:rcvd", "CHV:<"}, true
 		}
 		if e.Name == "$deref" && e.Args[0].Kind == "ident" {
 			if t := typeOfName(e.Args[0].Name); t != nil {
